@@ -17,7 +17,9 @@ def _k1_job(job):
     ctx = _CTX; part = Part()
     P = ctx.program()
     names = _names(real, K)
+    forms = fixed.get('forms') if real == 'alias' else None      # per alias: True = declared with a default value (`al : base := v;`, an enumeration alias), False = plain (`al : base;`)
     texts = {'fb': TC.source_fb, 'struct': TC.source_struct, 'alias': TC.source_alias}[real](K)
+    if forms: texts = ['TYPE\n  al%d : B%d%s;\nEND_TYPE\n' % (i, i, ' := dflt' if forms[i] else '') for i in range(K)]
     lib0, text = TC.build(ctx, texts)
     key = P.find_fn('ironplc-analyzer', 'xform_toposort_declarations::apply')
     M = Machine(P, max_steps=50_000_000)
@@ -48,6 +50,7 @@ def _k1_job(job):
                 if i in fixed: b = fixed[i]
                 else:
                     b = M.fresh_bv('base_%d' % i, 8); M.assume(z3.ULE(b, K))
+                    if forms and forms[i]: M.assume(z3.ULT(b, K))        # an alias with a default value always names a declared type here (stays inside the parser's image)
                 sym[i] = b
                 if is_sym(b):
                     t = ids['int']
@@ -89,7 +92,7 @@ def _k1_job(job):
         if r == z3.sat:
             m = s.model(); edges = edges_of(m); cyc = TC.reach_cyclic(K, edges)
             up = sorted((k_[1], k_[2]) for k_, e in sym.items() if isinstance(k_, tuple) and len(k_) == 3 and z3.is_true(m.eval(e, True)) and (k_[1], k_[2]) in edges)
-            role_g = '%s/K%d/%s%s' % (real, K, '_'.join('%d%d' % e for e in edges) or 'empty', ('/respelled-' + '_'.join('%d%d' % e for e in up)) if up else ''); src = _source(real, K, edges, up)
+            role_g = '%s/K%d/%s%s' % (real + ('-with-defaults-' + ''.join('1' if f else '0' for f in forms) if forms else ''), K, '_'.join('%d%d' % e for e in edges) or 'empty', ('/respelled-' + '_'.join('%d%d' % e for e in up)) if up else ''); src = _source(real, K, edges, up, forms)
             if pr.panic:
                 part.add('C07/K1/panic/' + role_g, 'toposort panics on %s graph %s: %s' % (real, edges, pr.panic.msg), {'realisation': real, 'edges': edges, 'source': src}, ('graph', (src, cyc)))
             else:
@@ -99,13 +102,13 @@ def _k1_job(job):
         else:
             s2 = z3.Solver(); s2.add(*pr.pc)
             if s2.check() == z3.sat and len(part.validate) < 1:
-                edges = edges_of(s2.model()); part.validate.append(('graph', (_source(real, K, edges), TC.reach_cyclic(K, edges))))
+                edges = edges_of(s2.model()); part.validate.append(('graph', (_source(real, K, edges, (), forms), TC.reach_cyclic(K, edges))))
                 if len(part.samples) < 1: part.samples.append({'realisation': real, 'K': K, 'edges': edges, 'verdict': 'P0010' if got_rec else 'no P0010'})
     M.explore(entry, on_path)
     part.queries += M.stats['smt']; part.encoded = set(M.encoded); part.models = set(M.models_used)
     return part
 
-def _source(real, K, edges, upper=()):
+def _source(real, K, edges, upper=(), forms=None):
     names = _names(real, K); E = set(edges); U = set(upper)
     nm = lambda i, j: (names[j].upper() if (i, j) in U else names[j])
     if real == 'fb':
@@ -113,7 +116,7 @@ def _source(real, K, edges, upper=()):
     if real == 'struct':
         return ''.join('TYPE\n  st%d : STRUCT\n%s  END_STRUCT;\nEND_TYPE\n' % (i, ''.join('    e%d_%d : %s;\n' % (i, j, nm(i, j) if (i, j) in E else 'INT') for j in range(K))) for i in range(K))
     d = dict(edges)
-    return ''.join('TYPE\n  al%d : %s;\nEND_TYPE\n' % (i, names[d[i]] if i in d else 'INT') for i in range(K))
+    return ''.join('TYPE\n  al%d : %s%s;\nEND_TYPE\n' % (i, names[d[i]] if i in d else 'INT', ' := dflt' if (forms and forms[i]) else '') for i in range(K))
 
 @replay_factory('graph')
 def _replay_graph(src, cyc):
@@ -137,6 +140,8 @@ def k1(ctx, kr):
         for bits in range(16):
             jobs.append((real, K, {c: bool(bits >> n & 1) for n, c in enumerate(cells)}))
     for b0 in range(K + 1): jobs.append(('alias', K, {0: b0}))
+    # aliases declared with a default value (`A : B := v;` parses as an enumeration declaration) mixed with plain aliases
+    for fbits in range(1, 8): jobs.append(('alias', K, {'forms': tuple(bool(fbits >> i & 1) for i in range(K))}))
     # references written in another letter case than the declaration (2 nodes, one case bit per reference)
     for real in ('fb', 'struct'):
         for bits in range(4): jobs.append((real, 2, {'case': True, (0, 0): bool(bits & 1), (0, 1): bool(bits & 2)}))
@@ -148,7 +153,7 @@ def k1(ctx, kr):
         # self-loops are decided on 3 nodes already: nodes 2 and 3 carry none here (2^14 graphs instead of 2^16, which took 73 minutes)
         for bits in range(256): jobs.append(('fb', K4, dict({c: bool(bits >> n & 1) for n, c in enumerate(cells)}, **{(2, 2): False, (3, 3): False})))
     kr.bounds = ('every directed graph on 3 nodes (self-loops included; one symbolic bit per potential edge, 512 graphs) realised as function-block instance graph and as structure-element graph; '
-                 'every functional graph (out-degree <= 1) on 3 nodes realised as type-alias graph; every digraph on 2 nodes (fb and struct) with every reference optionally re-spelled in upper case' + ('; thorough: 4 nodes (16384 fb graphs without self-loops on two of the nodes, 625 alias graphs)' if ctx.tier == 'thorough' else ''))
+                 'every functional graph (out-degree <= 1) on 3 nodes realised as type-alias graph, with every subset of the aliases declared with a default value; every digraph on 2 nodes (fb and struct) with every reference optionally re-spelled in upper case' + ('; thorough: 4 nodes (16384 fb graphs without self-loops on two of the nodes, 625 alias graphs)' if ctx.tier == 'thorough' else ''))
     for part in par_map(_k1_job, jobs): merge_part(kr, part)
     P = ctx.program()
     kr.functions = fn_paths(P, getattr(kr, '_enc', set()))
